@@ -517,6 +517,12 @@ impl PtraceDumper {
             mapping = self.find_mapping(stack_pointer);
         }
 
+        // Nothing that could be a stack within the guard distance: whatever else
+        // is mapped there (e.g. a large inaccessible reservation) is not the stack
+        if !Self::may_be_stack(mapping) {
+            return Err(DumperError::NoStackPointerMapping);
+        }
+
         mapping
             .map(|mapping| {
                 let valid_stack_pointer = if mapping.contains_address(stack_pointer) {
